@@ -11,8 +11,8 @@ package main
 // Arithmetic that merely scales (x * const, x / const) keeps the leaves of x.
 
 import (
-	"go/constant"
 	"fmt"
+	"go/constant"
 	"go/token"
 	"go/types"
 	"sort"
@@ -254,6 +254,15 @@ func (fi *flowInfo) callLeavesAt(call *ssa.Call, idx int, out map[string]bool, e
 				errIdx = -1
 			}
 		}
+	}
+	if b, isB := call.Call.Value.(*ssa.Builtin); isB && (b.Name() == "min" || b.Name() == "max") {
+		// one of the arguments
+		for _, e := range call.Call.Args {
+			for k := range fi.leaves(e) {
+				out[k] = true
+			}
+		}
+		return
 	}
 	if els := orArgs(call); len(els) > 0 {
 		// cmp.Or hands back one of its arguments (or the zero value)
